@@ -7,6 +7,7 @@ from . import common, svc, msgs
 
 IMG = '1.2.840.10008.5.1.4.1.1.7'
 OUT = {'s': 0x0000, 'w': 0xB000, 'f': 0xA700}
+CLASSES = ['1.2.840.10008.5.1.4.1.1.7', '1.2.840.10008.5.1.4.1.1.2', '1.2.840.10008.5.1.4.1.1.4']
 
 
 def run_move(case):
@@ -16,7 +17,8 @@ def run_move(case):
     n = len(outs)
     dss = []
     for k in range(n):
-        d = pydicom.Dataset(); d.SOPClassUID = IMG; d.SOPInstanceUID = '1.2.9.%d' % k; d.PatientID = 'P%d' % k
+        # instances of several SOP classes: each goes out through the storage service of ITS class
+        d = pydicom.Dataset(); d.SOPClassUID = CLASSES[(k * k + case['msgid']) % len(CLASSES)]; d.SOPInstanceUID = '1.2.9.%d' % k; d.PatientID = 'P%d' % k
         dss.append(d)
     sub_calls, dest = [], {}
 
@@ -55,6 +57,9 @@ def run_move(case):
         return None, None
     if [c[0] for c in sub_calls] != ['1.2.9.%d' % k for k in range(n)]:
         return 'sub-operations %r, the application supplied instances 0..%d in order' % ([c[0] for c in sub_calls], n - 1), None
+    wrong = [(c[0], c[2]) for c, d in zip(sub_calls, dss) if c[2] != str(d.SOPClassUID)]
+    if wrong:
+        return 'instance %s was sent through the storage service obtained for SOP class %s, it is of another class' % wrong[0], None
     if n and dest.get('remote') != remote:
         return 'sub-association requested with %r, the application designated %r' % (dest.get('remote'), remote), None
     finals = [f for f in w if f['status'] != 0xFF00]
